@@ -85,6 +85,18 @@ def cases(tier, rng):
         for k in ([254, 255, 256, 600] if tier == "quick" else [254, 255, 256, 257, 300, 511, 512, 600]):
             d = ",".join(str(rng.randrange(f[1])) for _ in range(rng.randrange(1, 30)))
             lines.append("rs %s %d %s" % (fs(f), k, d))
+    # GF(4096) up to and beyond 1024 check symbols (Aztec's largest symbols use up to ~1400), and on ONE encoder
+    # large counts in descending / mixed order (a "most recent large generator" memo must compare the degree)
+    f = (4201, 4096, 1)
+    for k in ([1023, 1024, 1025, 1400] if tier == "quick" else [1000, 1023, 1024, 1025, 1026, 1100, 1400, 1624, 2000]):
+        d = ",".join(str(rng.randrange(4096)) for _ in range(rng.randrange(1, 12)))
+        lines.append("rs %s %d %s" % (fs(f), k, d))
+    for ks in ([1100, 1300, 1300, 1100, 1030], [1400, 1025, 1024, 1023, 1026], [1030, 600, 1029, 1031, 20]):
+        ds = [",".join(str(rng.randrange(4096)) for _ in range(rng.randrange(1, 8))) for _ in ks]
+        lines.append("rs %s %s %s" % (fs(f), ";".join(map(str, ks)), ";".join(ds)))
+    f = (1033, 1024, 1)
+    for k in ([1000] if tier == "quick" else [700, 1000, 1020]):
+        lines.append("rs %s %d %s" % (fs(f), k, ",".join(str(rng.randrange(1024)) for _ in range(5))))
     # package-level encoders: interleaved request orders, cache carries across lines
     for _ in range(60 if tier == "quick" else 1500):
         which = rng.choice(["qr", "dm"])
